@@ -1,10 +1,122 @@
-import RgVerif.Model.Sx
+import RgVerif.Spec.ProcessSpec
 namespace RgVerif.Driver.C18
-open RgVerif
+open RgVerif RgVerif.Process RgVerif.ProcessSpec
 
-/-- Request handler of property C18: `cmd` is the first token of the line, `args` the rest. -/
+/-
+Requests
+  c18.close   (reader OPEN EOF) (child WAIT STDERR)           -> ok|err OPEN EOF
+  c18.consume (child WAIT STDERR) (reads n…) STOP             -> got N readerr B close ok|err      (STOP = - | k; n = bytes of a read, > 0)
+  c18.spec.close CONSUMED (child WAIT STDERR)                  -> 0|1
+  c18.pre OPENOK SPAWNOK SEARCH CLOSE                          -> ok|err        (SEARCH, CLOSE = ok|err)
+  c18.decomp HASCMD SPAWNOK OPENOK SEARCH CLOSE                -> reader:<command|passthru|openerror> ok|err
+  c18.select (cfg STDIN PRE ZIP RECOGNISED) (globs (NEG HIT)…) -> model STRATEGY spec STRATEGY
+  c18.pipes K ASYNC (prog 0|1 …) (sched CHOICE…)               -> prog N out N err N closed B done B canstep B
+     CHOICE = c (child) | k (child killed by SIGPIPE) | rN (read N) | x (close) | dN (drain N)
+WAIT = ok | fail | waiterr; STDERR = hex bytes | ioerr
+-/
+
+def parseWait : Sx → Option Wait
+  | .atom "ok" => some (.exited true)
+  | .atom "fail" => some (.exited false)
+  | .atom "waiterr" => some .failed
+  | _ => none
+
+def parseStderr : Sx → Option Stderr
+  | .atom "ioerr" => some .ioError
+  | x => (x.bytes?).map .bytes
+
+def parseChild : Sx → Option Child
+  | .list [.atom "child", w, e] => do pure ⟨(← parseWait w), (← parseStderr e)⟩
+  | _ => none
+
+def parseReader : Sx → Option Reader
+  | .list [.atom "reader", o, e] => do pure ⟨(← o.bool?), (← e.bool?)⟩
+  | _ => none
+
+def b (x : Bool) : String := if x then "1" else "0"
+
+def showClose : CloseRes → String
+  | .ok => "ok"
+  | .err => "err"
+
+def parseOutcome : Sx → Option (Outcome Unit)
+  | .atom "ok" => some (.ok ())
+  | .atom "err" => some .err
+  | _ => none
+
+def parseCloseRes : Sx → Option CloseRes
+  | .atom "ok" => some .ok
+  | .atom "err" => some .err
+  | _ => none
+
+def showOutcome : Outcome Unit → String
+  | .ok _ => "ok"
+  | .err => "err"
+
+def showStrategy : Strategy → String
+  | .stdin => "stdin"
+  | .preprocessor => "preprocessor"
+  | .decompress => "decompress"
+  | .direct => "direct"
+
+def parseGlob : Sx → Option PreGlob
+  | .list [n, h] => do pure ⟨(← n.bool?), (← h.bool?)⟩
+  | _ => none
+
+def parseChoice (s : String) : Option Choice :=
+  match s.toList with
+  | ['c'] => some .child
+  | ['k'] => some .childKill
+  | ['x'] => some .close
+  | 'r' :: ds => (String.ofList ds).toNat?.map .read
+  | 'd' :: ds => (String.ofList ds).toNat?.map .drain
+  | _ => none
+
 def handle (cmd : String) (args : List Sx) : String :=
   match cmd, args with
+  | "c18.close", [r, ch] =>
+    match parseReader r, parseChild ch with
+    | some r, some ch =>
+      let (r', c) := close r ch
+      s!"{showClose c} {b r'.stdoutOpen} {b r'.eof}"
+    | _, _ => "bad-op"
+  | "c18.consume", [ch, .list (.atom "reads" :: rs), stop] =>
+    match parseChild ch, rs.mapM Sx.nat?, (match stop with | .atom "-" => some none | x => (x.nat?).map some) with
+    | some ch, some rs, some stop =>
+      if rs.any (· == 0) then "bad-op" else
+      let (_, got, rerr, c) := consume ch (rs.map (· - 1)) stop {} 0
+      s!"got {got} readerr {b rerr} close {showClose c}"
+    | _, _, _ => "bad-op"
+  | "c18.spec.close", [consumed, ch] =>
+    match consumed.bool?, parseChild ch with
+    | some e, some ch => b (specCloseErr e ch)
+    | _, _ => "bad-op"
+  | "c18.pre", [o, s, sr, cl] =>
+    match o.bool?, s.bool?, parseOutcome sr, parseCloseRes cl with
+    | some o, some s, some sr, some cl => showOutcome (searchPreprocessor o s sr cl)
+    | _, _, _, _ => "bad-op"
+  | "c18.decomp", [h, s, o, sr, cl] =>
+    match h.bool?, s.bool?, o.bool?, parseOutcome sr, parseCloseRes cl with
+    | some h, some s, some o, some sr, some cl =>
+      let rd := decompBuild h s o
+      let name := match rd with
+        | .command => "command"
+        | .passthru => "passthru"
+        | .openError => "openerror"
+      s!"reader:{name} {showOutcome (searchDecompress rd sr cl)}"
+    | _, _, _, _, _ => "bad-op"
+  | "c18.select", [.list [.atom "cfg", si, p, z, rec], .list (.atom "globs" :: gs)] =>
+    match si.bool?, p.bool?, z.bool?, rec.bool?, gs.mapM parseGlob with
+    | some si, some p, some z, some rec, some gs =>
+      let c : SelCfg := { isStdin := si, pre := p, preGlobs := gs, searchZip := z, recognised := rec }
+      s!"model {showStrategy (select c)} spec {showStrategy (specStrategy c)}"
+    | _, _, _, _, _ => "bad-op"
+  | "c18.pipes", [k, a, .list (.atom "prog" :: ps), .list (.atom "sched" :: cs)] =>
+    match k.nat?, a.bool?, ps.mapM Sx.bool?, cs.mapM (fun x => x.atom? >>= parseChoice) with
+    | some k, some a, some prog, some sched =>
+      let s := replay k a (initState prog) sched
+      s!"prog {s.prog.length} out {s.out} err {s.err} closed {b s.closed} done {b (isDone s)} canstep {b (canStep k a s)}"
+    | _, _, _, _ => "bad-op"
   | _, _ => "bad-op"
 
 end RgVerif.Driver.C18
